@@ -13,7 +13,7 @@ namespace MenpoModel.C06.GenSrc
 open MenpoModel.C06
 
 def copyableCopy (rec : Src.Rec) (h : Heap) (self : Src.SelfObj) : Except MenpoModel.C06.Err (Src.PObj × Heap) :=
-  let new0 := Src.blank
+  let new0 := (Src.newOf self.cls)
   let r0 := MenpoModel.Py.forLoop (none, new0, h) (self.fs) (fun acc0 it0 =>
       if (acc0.1).isSome then acc0 else
       let new1 := acc0.2.1
@@ -132,7 +132,7 @@ def lazyListCopy (rec : Src.Rec) (h : Heap) (self : Src.SelfObj) : Except MenpoM
     .error e_0)
 
 def homogAlignCopy (rec : Src.Rec) (h : Heap) (self : Src.SelfObj) : Except MenpoModel.C06.Err (Src.PObj × Heap) :=
-  let new0 := Src.blank
+  let new0 := (Src.newOf self.cls)
   let new1 := (Src.withDict new0 self.fs)
   (match (Src.getAttr new1 "_h_matrix") with
   | .ok t_0 =>
